@@ -71,7 +71,7 @@ func c11Facts(fc *facts) {
 		}
 	}
 	if !okAdv {
-		problem("Watermarker.AdvanceTime no longer has the shape `if eventTimestamp.After|Before(w.maxTimestamp) { w.maxTimestamp = eventTimestamp }`")
+		problemFor([]string{"wmAdvanceCond"}, "Watermarker.AdvanceTime no longer has the shape `if eventTimestamp.After|Before(w.maxTimestamp) { w.maxTimestamp = eventTimestamp }`")
 	}
 
 	// CurrentWatermark: `return w.maxTimestamp.Add(-(w.allowedLateness + time.<Unit>))`
@@ -96,7 +96,7 @@ func c11Facts(fc *facts) {
 		}
 	}
 	if !okCur {
-		problem("Watermarker.CurrentWatermark no longer has the shape `return w.maxTimestamp.Add(-(w.allowedLateness + time.<Unit>))`")
+		problemFor([]string{"wmSlackNs"}, "Watermarker.CurrentWatermark no longer has the shape `return w.maxTimestamp.Add(-(w.allowedLateness + time.<Unit>))`")
 	}
 
 	rf := parseFile("workers/operator/timer_registry.go")
@@ -119,7 +119,7 @@ func c11Facts(fc *facts) {
 		}
 	}
 	if !okSet {
-		problem("TimerRegistry.SetTimer no longer has the shape `if <r.watermark cmp t> { return }; r.store.Put(key, t)`")
+		problemFor([]string{"timerGuardCond"}, "TimerRegistry.SetTimer no longer has the shape `if <r.watermark cmp t> { return }; r.store.Put(key, t)`")
 	}
 
 	// AdvanceWatermark: the loop's stop test `if timer.Timestamp.After(compositeWatermark) { break }`,
@@ -141,7 +141,7 @@ func c11Facts(fc *facts) {
 	if len(stops) == 1 {
 		fc.set("fireStopCond", stops[0], true, "")
 	} else {
-		problem("TimerRegistry.AdvanceWatermark: expected exactly one `if timer.Timestamp.After|Before(compositeWatermark) { break }`, found %d", len(stops))
+		problemFor([]string{"fireStopCond"}, "TimerRegistry.AdvanceWatermark: expected exactly one `if timer.Timestamp.After|Before(compositeWatermark) { break }`, found %d", len(stops))
 	}
 
 	nr := findFuncOr(rf, "", "NewTimerRegistry")
@@ -161,6 +161,6 @@ func c11Facts(fc *facts) {
 		fc.set("upstreamInitSec", inits[0][0], true, "")
 		fc.set("upstreamInitNsec", inits[0][1], true, "")
 	} else {
-		problem("NewTimerRegistry: expected exactly one time.Unix(<lit>, <lit>) initial upstream watermark, found %d", len(inits))
+		problemFor([]string{"upstreamInitSec", "upstreamInitNsec"}, "NewTimerRegistry: expected exactly one time.Unix(<lit>, <lit>) initial upstream watermark, found %d", len(inits))
 	}
 }
